@@ -120,6 +120,52 @@ CLAIMED = {
        "recording stubs; find_binaries' directory walk (ignore crate, infer::is_app) is exercised, not modelled.",
   technique="Lean 4 decision-logic theorems over a tool-parametric model + recording-stub differential runs + toolchain cross-check (gcc/gcov)",
   design="6.C20"),
+ "C09": dict(
+  text=("Proof (25 theorems, all full strength). Text form: for every well-formed report (any record order, CR*LF "
+        "terminators, '+'/leading zeros, names with commas) Gcov.Text.parse (render r) = ok (semText r) at byte level, "
+        "per-record lemmas, negative => 0, count >= 2^64 => Err(Parse) after any well-formed prefix, every accepted count "
+        "fits u64 and final newline optional for every byte string, branch vector in record order, last record wins, "
+        "lcount-less sections omitted. JSON form: for every well-formed document Json.toResults (toJson d) = ok (semJson d) "
+        "at value-tree level, deserialize_counter (integer as is, float 0..2^64 truncated/saturated, no wrap), files without "
+        "lines omitted, key-order invariance. Robustness: C09_text_never_panics (every byte string) and "
+        "C09_json_never_panics (every value tree and reader-layer failure). Tie: the real parse_gcov/parse_gcov_gz on "
+        "generated .gcov and .gcov.json.gz files vs the model and vs independent Rust semantics, plus malformed streams."),
+  note=COMMON_NOTE + "Modelled, not verified: flate2 and serde_json's text-to-value layer (the model starts at the value "
+       "tree), serde_json float reading (exercised on exactly representable literals), File::open failure and read_until "
+       "I/O errors, from_utf8_unchecked on non-UTF-8 input (never generated).",
+  technique="Lean 4 proofs over byte-level (text) and value-tree (JSON) models of the gcov readers + differential correspondence + independent semantics oracle",
+  design="6.C09"),
+ "C14": dict(
+  text=("Proof: for EVERY byte string the lcov byte machine returns a result or an error value, never a panic "
+        "(C14_lcov_never_panics, C14_lcov_result_or_error; a fold, hence one step per byte), truncation = a prefix run; "
+        "JaCoCo: every event sequence terminates with fuel 2*events+1 (C14_jacoco_always_terminates, from C10); gcov text "
+        "and JSON: C09_text_never_panics / C09_json_never_panics (audited by the C09 check). Not covered by a theorem: the "
+        "gcno/gcda binary reader (tied by C15/C08 at CFG level, measured here) and the time/memory of the Rust code, which "
+        "are MEASURED: every prefix (sampled on quick, all on thorough) of every corpus file, single-word substitutions "
+        "by boundary values in gcno/gcda, single-token substitutions in text inputs and random multi-point corruptions "
+        "run in a child process under RLIMIT_AS = 2 GiB and a wall-clock limit; the outcome must be ok or err; lcov cases "
+        "are tied to the model; a truncated gcda must give an error or the result of one of its record prefixes."),
+  note=COMMON_NOTE + "Known findings C14-lcov-branch-number-alloc and C14-jacoco-branch-vector-alloc (a number in the "
+       "input is an allocation size). Stack depth of the recursive gcno propagation and the exponential cycle search are "
+       "outside every model (DESIGN section 7 item 12); the allocator and the kernel's limits are trusted.",
+  technique="Lean 4 invariant proofs (no panic state reachable, termination) over the reader models + exhaustive/sampled truncation and substitution fault enumeration in a resource-limited child process",
+  design="6.C14"),
+ "C18": dict(
+  text=("Proof (19 theorems) for all byte strings: the escape tables of quick-xml (escape, as used by push_attribute and "
+        "BytesText::new), serde_json and Tera are inverted exactly by an XML/HTML entity reader and a JSON string reader; "
+        "escaped output contains no raw < > \" ' (no byte below 0x20 for JSON); every & starts an emitted entity; hence an "
+        "attribute, text or JSON-string scanner started after the opening delimiter returns exactly the name and the "
+        "writer's own continuation (XML attribute scan under the property's no-TAB/LF/CR guard). Breadcrumb link and item "
+        "for every prefix option and name; index row links relative for every name without prefix. One _partial about "
+        "configuration (a --abs-link-prefix without '/' or ':' concatenated with a directory name). Tie: the real escape "
+        "routines and Tera row template byte for byte on ~4000 strings, reader models vs quick-xml/serde_json parsers on "
+        "~3000 inputs, ~95 whole report sets through the five real writers read back by expat/json/html.parser and "
+        "compared with the names, a benign twin and the link-scheme rule."),
+  note=COMMON_NOTE + "quick-xml, serde_json and Tera are modelled as escape tables and tied at run time; Python's expat, "
+       "json and html.parser are independent readers; that grcov's writers route every name through those routines is "
+       "checked on generated reports, not proved; c++filt supplies expected demanglings.",
+  technique="Lean 4 proofs over escape/scan models + byte-for-byte differential ties + independent parsers on whole reports",
+  design="6.C18"),
 }
 
 PENDING_REASON = "not claimed in this revision: model and check still being built (see DESIGN.md section 10)"
